@@ -14,7 +14,8 @@ use std::time::Instant;
 
 pub const CHUNK: u64 = 256;
 pub const SWARM_BATCH: u64 = 4096;
-pub const DISTINCT_CAP: usize = 6_000_000;
+pub const DISTINCT_CAP_QUICK: usize = 8_000_000;
+pub const DISTINCT_CAP_THOROUGH: usize = 48_000_000;
 
 #[derive(Clone, Debug)]
 pub struct Config {
@@ -42,25 +43,25 @@ pub fn prop_num(p: &str) -> u64 {
 pub fn plan(prop: &str, tier: &str, ctx: &Ctx) -> (u64, u64, String) {
     let thorough = tier == "thorough";
     match prop {
-        "C10" => (if thorough { 6_000_000 } else { 300_000 }, 0, String::new()),
+        "C10" => (if thorough { 30_000_000 } else { 1_000_000 }, 0, String::new()),
         "C01" => {
             let l = if thorough { 5 } else { 4 };
             let ex = crate::gen::w5_count(l) * c01::W5_ENVS.len() as u64;
             (
-                ex + if thorough { 40_000_000 } else { 1_500_000 },
+                ex + if thorough { 150_000_000 } else { 4_000_000 },
                 ex,
                 format!("every string of length <= {l} over the 14-symbol alphabet {:?} x {} environments", crate::gen::W5_ALPHABET, c01::W5_ENVS.len()),
             )
         }
         "C17" => {
             let (ex, desc) = c17::exhaustive_plan(ctx, thorough);
-            (ex + if thorough { 20_000_000 } else { 600_000 }, ex, desc)
+            (ex + if thorough { 60_000_000 } else { 2_500_000 }, ex, desc)
         }
         "C18" => {
             let l = if thorough { 6 } else { 4 };
             let ex = c18::exhaustive_count(l);
             (
-                ex + if thorough { 30_000_000 } else { 1_200_000 },
+                ex + if thorough { 60_000_000 } else { 2_000_000 },
                 ex,
                 format!("every byte string of length <= {l} over {{00,0A,20,2D,41,80,C3,E4,FE,FF}} x 4 traps"),
             )
@@ -146,7 +147,7 @@ impl Stats {
         self.sub_runs += o.sub_runs;
         self.nontrivial += o.nontrivial;
         for f in o.distinct {
-            if self.distinct.len() < DISTINCT_CAP {
+            if self.distinct.len() < DISTINCT_CAP_THOROUGH {
                 self.distinct.insert(f);
             } else {
                 self.distinct_capped = true;
@@ -236,6 +237,7 @@ pub fn run_batch(cfg: Config) -> i32 {
     let next_chunk = Arc::new(AtomicU64::new(0));
     let stop_at = Arc::new(AtomicU64::new(u64::MAX));
     let sample_step = (total / 5).max(1);
+    let distinct_cap = if cfg.tier == "thorough" { DISTINCT_CAP_THOROUGH } else { DISTINCT_CAP_QUICK };
 
     // observer state: per worker (current run index + 1, start in ms since t0)
     let progress: Arc<Vec<(AtomicU64, AtomicU64)>> =
@@ -301,7 +303,7 @@ pub fn run_batch(cfg: Config) -> i32 {
                         }
                         if out.nontrivial {
                             st.nontrivial += 1;
-                            if st.distinct.len() < DISTINCT_CAP / ctx.cfg.jobs.max(1) + 1 {
+                            if st.distinct.len() < distinct_cap / ctx.cfg.jobs.max(1) + 1 {
                                 st.distinct.insert(out.fingerprint);
                             } else {
                                 st.distinct_capped = true;
